@@ -64,6 +64,7 @@ def check(ctx) -> None:
     r713(ctx)
     r714(ctx)
     r715(ctx)
+    r716(ctx)
 
 
 def r71(ctx) -> None:
@@ -994,3 +995,110 @@ def r715(ctx) -> None:
                         f'the position does not allow, so FETCH '
                         f'{"ENVELOPE" if "A" in want or cn == "_AddressList" else "BODYSTRUCTURE"}'
                         f' does not parse', f'{len(want)} fields')
+
+
+STATUS_CLASSES = ('ResponseOk', 'ResponseNo', 'ResponseBad', 'ResponseBye',
+                  'ResponsePreAuth', 'ResponseContinuation')
+
+
+def _text_kind(ctx, f, e, depth=0) -> str:
+    """'nonempty' | 'empty' (may be the empty string) | 'unknown:<txt>'."""
+    if e is None:
+        return 'empty'
+    ok, v = const_value(e)
+    if ok:
+        return 'nonempty' if v else 'empty'
+    if isinstance(e, ast.BinOp) and isinstance(e.op, (ast.Add, ast.Mod)):
+        ks = (_text_kind(ctx, f, e.left, depth + 1),
+              _text_kind(ctx, f, e.right, depth + 1))
+        if isinstance(e.op, ast.Mod):
+            return ks[0]                   # the format string
+        return 'nonempty' if 'nonempty' in ks else (
+            'empty' if set(ks) == {'empty'} else ks[0] if
+            ks[0].startswith('unknown') else ks[1])
+    if isinstance(e, ast.BoolOp) and isinstance(e.op, ast.Or):
+        return _text_kind(ctx, f, e.values[-1], depth + 1)
+    if isinstance(e, ast.IfExp):
+        ks = {_text_kind(ctx, f, e.body, depth + 1),
+              _text_kind(ctx, f, e.orelse, depth + 1)}
+        return ks.pop() if len(ks) == 1 else (
+            'empty' if 'empty' in ks else sorted(ks)[-1])
+    if isinstance(e, ast.Name) and depth < 4:
+        from ..facts import reaching_values
+        only_truthy: set = set()
+        vals = reaching_values(f, e, only_truthy)
+        if vals is None:
+            vals = [v for v in resolve_local(f, e)
+                    if v is not None and v is not e]
+        ks = set()
+        for v in vals:
+            k = _text_kind(ctx, f, v, depth + 1)
+            # a possibly empty value that gets here only after `if not x:
+            # x = <fallback>` was not taken is not empty
+            ks.add('nonempty' if k == 'empty' and id(v) in only_truthy
+                   else k)
+        if not ks:
+            return 'unknown:' + e.id
+        return 'empty' if 'empty' in ks else (
+            'nonempty' if ks == {'nonempty'} else sorted(ks)[-1])
+    if isinstance(e, ast.Call) and call_name(e) in ('bytes', 'str',
+                                                    'encode') and (
+            e.args or isinstance(e.func, ast.Attribute)):
+        # a conversion of a value: empty when the value is
+        inner = e.args[0] if e.args else e.func.value
+        if isinstance(inner, ast.Call) and call_name(inner) in ('str',
+                                                                 'bytes'):
+            inner = inner.args[0] if inner.args else inner
+        if isinstance(inner, ast.Name):
+            hs = [h for h in walk_local(f.node)
+                  if isinstance(h, ast.ExceptHandler) and h.name == inner.id]
+            if hs:
+                return 'empty'           # str(exc) of an exception: may be ''
+        return _text_kind(ctx, f, inner, depth + 1) if depth < 4 \
+            else 'unknown:' + txt(e)[:30]
+    if isinstance(e, ast.Attribute) and e.attr == 'message' and depth < 3:
+        # InvalidCommand.message and the like: a property of a parsing class
+        ks = set()
+        for c in ctx.proj.all_classes('pymap/parsing/'):
+            g = c.own_method('message')
+            if g is not None:
+                for r in walk_local(g.node):
+                    if isinstance(r, ast.Return):
+                        ks.add(_text_kind(ctx, g, r.value, depth + 1))
+        if ks:
+            return 'nonempty' if ks == {'nonempty'} else sorted(ks)[0]
+    return 'unknown:' + txt(e)[:30]
+
+
+def r716(ctx) -> None:
+    """RFC 3501 section 9: resp-text = ["[" resp-text-code "]" SP] text,
+    text = 1*TEXT-CHAR: a status response always carries some text."""
+    R = ctx.rule('R7.16', 'the text of a status response is never empty', 40)
+    n = 0
+    for f in ctx.proj.all_funcs('pymap/imap/'):
+        for c in calls_in(f.node):
+            if call_name(c) not in STATUS_CLASSES or \
+                    isinstance(c.func, ast.Attribute):
+                continue
+            pos = 0 if call_name(c) in ('ResponseBye', 'ResponsePreAuth',
+                                        'ResponseContinuation') else 1
+            arg = c.args[pos] if len(c.args) > pos else kwarg(c, 'text')
+            if call_name(c) == 'ResponseContinuation':
+                continue      # continue-req may carry empty base64
+            n += 1
+            k = _text_kind(ctx, f, arg)
+            key = f'{f.qualname}: text of `{txt(c)[:44]}`'
+            if k == 'nonempty':
+                R.ok(f, c, key, 'contains a non-empty constant')
+            elif k == 'empty':
+                R.fail(f, c, key,
+                       f'`{txt(arg)}` can be the empty string (the text of '
+                       f'an exception raised without a message): the line '
+                       f'written is `tag BAD ` + CRLF, and the grammar has '
+                       f'text = 1*TEXT-CHAR — AUTHENTICATE PLAIN answered '
+                       f'with a line that is not base64 gets exactly that')
+            else:
+                R.undecided(f, c, key, k)
+    if n < 40:
+        raise AnchorError(f'only {n} status response constructions found in '
+                          f'pymap/imap/ (40 confirmed by hand)')
